@@ -6,6 +6,52 @@ CHECKS = {
         "note": "StubDatabase and DetLoop replace sqlite and the selector loop; at most 3 (quick) / 4 (thorough) element tokens per gather harness, so a counting bug needing >=5 arrivals is outside; key prefixes concrete; interleavings differ only in the first K choice points.",
         "technique": "symbolic execution of the real step coroutines (CrossHair + z3) on a deterministic asyncio loop with solver-chosen arrival positions and interleavings; native replay",
     },
+    "C02": {
+        "text": "Bounded symbolic check of the real CombinatorStep with dot-product and cartesian-product combinators (flat, 3-port, and nested with a broadcast port exactly as the CWL translator builds them): the arrival order (a solver-chosen merge of the per-port FIFO streams including the termination tokens) and every token's last tag component are solver variables. Emitted rows equal an exact reference (one row per tag present on every deep port, broadcast of the shallower token of the same parent only, full cross product within a parent tag with composite tags), are never emitted twice, are order-invariant against the canonical port-by-port order, and every emitted token's recorded provenance is exactly the set of combined inputs.",
+        "note": "StubDatabase/DetLoop; <=3 tokens per port, <=3 ports, symbolic last tag component from 0..2/0..3 and 8..11 (tags are dict keys in the combinators, so symbolic tags are realised value by value), concrete parent prefixes incl. '0.1' vs '0.10'; duplicate tags on one port and cartesian combinators with inner combinators (latent AttributeError, never built by the translator) are outside.",
+        "technique": "symbolic execution of the real combinator step (CrossHair + z3) on a deterministic loop with solver-chosen arrival merges and tags; exact reference + order-invariance oracle; native replay",
+    },
+    "C06": {
+        "text": "Bounded symbolic check of the real loop steps: CWLLoopOutputLast/AllStep fed with the causal merge of iteration values and iteration-termination markers (iteration count 0..3 with a fully symbolic arrival permutation, 10-15 iterations with a symbolic transposition, symbolic marker position, two interleaved instances '0.1'/'0.10' with solver-chosen merge) emit exactly one output per instance with tag = prefix and the last value / all values in numeric iteration order, None for zero iterations, and do not terminate before the producers do; the real LoopCombinatorStep retags the k-th product of an instance <prefix>.k and does not terminate while an instance is still iterating; LoopTerminationCombinator emits one IterationTerminationToken per completed instance.",
+        "note": "Step-level lemmas; histories restricted to causal ones w.r.t. the translator's wiring (every TerminationToken after all values and markers). The assembled loop sub-graph under an executor is not part of this check (see C04 family). Instance prefixes concrete.",
+        "technique": "symbolic execution of the real loop steps (CrossHair + z3) on a deterministic loop with solver-chosen arrival permutations/merges; native replay",
+    },
+    "C10": {
+        "text": "Bounded symbolic check of the real DefaultScheduler on stub connectors: from every pair (and selected triples) of designated job statuses reached through canonical prefixes, every sequence of 1-2 (thorough: up to 3) further operations chosen by the solver among schedule/RUNNING/COMPLETED/FAILED/CANCELLED/RECOVERY/ROLLBACK on any job, with all capacities, requirements and measured storage usages symbolic exact integers, keeps the summed requirement of FIREABLE/RUNNING jobs within the capacity of every location at every stacked level (or the job count within the slots), on 7 topologies (one location, two locations with 1- or 2-location targets, slot-only, stacked wrapper with bind mount and jobs on either level, two deployments as ordered targets).",
+        "note": "Stub connectors/deployment manager/HardwareRequirement/get_storage_usages; Hardware() float zero defaults replaced by integer 0 (exact arithmetic; IEEE envelope in C14); callers' lifecycle predicate listed in the evidence; <=3 jobs; measured usage <= declared requirement; default policy only.",
+        "technique": "symbolic execution of the real scheduler (CrossHair + z3) on a deterministic loop: canonical-prefix states x solver-chosen operation suffixes x symbolic quantities; native replay",
+    },
+    "C11": {
+        "text": "Same histories as C10 with the accounting oracle: the scheduler's own ledger never shows negative cores/memory/storage, and after driving every allocated job to a terminal status (with solver-chosen duplicated and out-of-order notifications in the history) every location's reserved cores and memory are exactly 0 and its storage equals exactly the sum of the measured usages.",
+        "note": "As C10.",
+        "technique": "symbolic execution of the real scheduler (CrossHair + z3), ledger oracle after every operation and at drain; native replay",
+    },
+    "C12": {
+        "text": "Same histories as C10 with the liveness oracle at every quiescent point: no schedule() request is pending while a declared target has enough locations whose free capacity (computed by the harness from the requirements it handed out, independent of the scheduler's ledger) covers it at every stacked level; after all other jobs are terminal every request that fits has been granted. retry_interval=None so a lost notify_all cannot be masked by polling; a deadlock of the loop is a violation.",
+        "note": "As C10; bounded: a starvation that needs more than the bounded history to manifest is outside.",
+        "technique": "symbolic execution of the real scheduler (CrossHair + z3), no-lost-wake-up oracle at quiescence; native replay",
+    },
+    "C14": {
+        "text": "Hardware/Storage arithmetic checked by two engines. (1) CrossHair on the real classes over every storage-map shape with 0..3 (quick) / 0..4 (thorough) storages per Hardware over <=3 mount points (keys equal to, aliasing or crossing mount points), all amounts unbounded non-negative integers: a+b carries the per-mount sums and (a+b)-b restores a's amounts without touching the operands; normalized() is in normal form, idempotent, total-preserving; a.satisfies(b) is True exactly when cores, memory and every mount point of b are <= in a and never True when a lacks a mount point of b; | max-merges sizes. (2) smtx: the same source translated AST->SMT with amounts as unbounded Reals, every law proved unsat by z3 and cvc5, the encoding validated against the real functions on >=200 concrete inputs per run. (3) Three QF_FP lemmas (both solvers): an exact double sum round-trips; integer-valued doubles add/subtract exactly.",
+        "note": "Fractional IEEE doubles are covered only by the envelope lemmas ((a+b)-b != a for 0.1/0.2 is inherent to float, not a finding). Default '/' volume's 0.0 replaced by 0 under CrossHair; repr stub on the error-message path of satisfies(); shapes up to renaming of mount points; a-b on b-only mounts and cores/memory of | are outside. smtx is a hand-written evaluator of a Python subset (differentially validated each run).",
+        "technique": "symbolic execution of the real classes (CrossHair + z3) with unbounded symbolic amounts; AST->SMT translation of the same source discharged by z3 and cvc5; QF_FP lemmas; native replay",
+        "engine": "crosshair+smtx",
+    },
+    "C20": {
+        "text": "Bounded symbolic check of the real DirectedGraph/DirectedAcyclicGraph (and GraphMapper on top) against a ~20-line reference graph: the initial DAG is a symbolic adjacency on 4 (quick) / 5 (thorough) nodes, followed by enumerated short operation skeletons over add/remove_nodes(prune symbolic)/replace/promote_to_source with every adjacency bit and flag symbolic; after every operation successors and predecessors mirror each other and equal the reference, removed-node sets, replace and promote semantics match the statement.",
+        "note": "Graphs of <=5 nodes (12-node graphs outside), skeletons <=2 (quick) / 3 (thorough) operations; edge cases the statement does not fix (absent nodes, self loops) excluded by precondition and listed in the evidence assumptions.",
+        "technique": "symbolic execution of the real graph classes (CrossHair + z3) over symbolic adjacency matrices with a reference model; native replay",
+    },
+    "C28": {
+        "text": "The real WorkflowConfig constructor and get_binding_config run on a StreamFlow-file mapping whose shape is owned by the solver (number of bindings, each binding's path from alphabet indexes with depth 0-3, step/port kind, queried step path, wraps index of each deployment incl. cycles and self references, workdir presence): the targets returned for a step are exactly those of the step binding on the longest component-wise prefix path (port bindings ignored, local target when nothing matches); the workdir is the target's own, else the first along the wraps chain, else the default; the constructor raises WorkflowDefinitionException iff the wraps graph has a cycle.",
+        "note": "Parsed mapping (JSON-schema validation not executed symbolically); component alphabet {a, ab}; quick: 1-3 bindings, 1-3 deployments (workdir), 1-4 deployments (cycles); thorough: up to 5; duplicate step bindings on one path accept either; dangling deployment names outside.",
+        "technique": "symbolic execution of the real configuration code (CrossHair + z3) with a reference nearest-ancestor / wraps-chain model; native replay",
+    },
+    "C32": {
+        "text": "Bounded symbolic check of remap_token_value/remap_path: the relative name is assembled from solver-owned indexes into an alphabet (plain, digits completing a percent escape, path separator, space, non-ASCII, ':', '%') with solver-owned length 1..3 (quick) / 1..4 (thorough), crossed with 10 directory pairs, plain path / file:// location / both / foreign scheme forms and File, Directory+listing, secondaryFiles, array, record, non-file shapes: remap there and back restores the value exactly and the intermediate value denotes the same relative files under the new directory; other schemes and non-file values are unchanged.",
+        "note": "urllib quote/unquote run untraced on concrete text; canonical file:// URIs only; paths strictly below old_dir; the ':/'-in-plain-path quirk is outside. The defect found by this check (percent-decoding of plain paths, loss of URI encoding) was repaired in /repo commit a33247d.",
+        "technique": "symbolic execution of the real remap code (CrossHair + z3) over solver-enumerated names by input class; round-trip + forward oracle; native replay",
+    },
     "C03": {
         "text": "Bounded symbolic check of the real Port classes: ALL histories of 4-7 put/get/terminate operations by 1-3 consumers (operation codes are solver variables; blocked gets and late subscribers included) deliver to every consumer exactly the put sequence in order; FilterTokenPort delivers exactly the admitted tokens (symbolic values and threshold) plus termination; InterWorkflowPort forwards the completing token (and RECOVERED termination) to the boundary port exactly when the symbolic boundary tag set is complete, adding a rule before/in the middle of/after the puts commutes, and self-bound rules never duplicate a local delivery.",
         "note": "DetLoop replaces the selector loop; histories longer than the bound, >3 consumers, duplicate tags in boundary rules or puts are outside; for tokens put after a rule became complete only the commutation clause is asserted.",
